@@ -165,7 +165,7 @@ func errOf(v reflect.Value) error {
 }
 
 func runC01(c *wk.Ctx) {
-	c.Meta("rule", "per case: a generated schema (all kinds, nesting, map-based and struct-mapped objects, units, defaults, one-of inlined/not, references) or one of 9 typed-constructor schemas, and a generated valid input put into a random representation (integer/float widths, numeric and unit strings, boolean words, map[string]any vs map[any]any, typed maps/slices, single-property shorthand), also its CBOR image. Chain: v=U(r); Validate(v); w=S(v); v1=U(w); v2=U(cbor(w)); w1=S(v1); w2=S(v2); require v=v1=v2 (typed deep equality, NaN=NaN, regexps by source), w=w1 and cbor(w)=cbor(w2); the typed entry points (UnserializeType / ValidateType / SerializeType, found by reflection) must agree with the untyped ones. No reference model: purely metamorphic. non-trivial = schema depth >= 2 or a non-native representation was used; distinct = hash(schema, input)")
+	c.Meta("rule", "per case: a generated schema (all kinds, nesting, map-based and struct-mapped objects, units, defaults, one-of inlined/not, references) or one of 9 typed-constructor schemas, and a generated valid input put into a random representation (integer/float widths, numeric and unit strings, boolean words, map[string]any vs map[any]any, typed maps/slices, single-property shorthand), also its CBOR image. Chain: v=U(r); Validate(v); w=S(v); v1=U(w); v2=U(cbor(w)); w1=S(v1); w2=S(v2); require v=v1=v2 (typed deep equality, NaN=NaN, regexps by source), w=w1 and cbor(w)=cbor(w2); the typed entry points (UnserializeType / ValidateType / SerializeType, found by reflection) must agree with the untyped ones. No reference model: purely metamorphic. non-trivial = schema depth >= 2 or a non-native representation was used; distinct = hash(schema, input) Perturbed inputs include an explicit null in place of a leaf.")
 	c.Meta("assumptions", []string{"inputs are drawn from the generator's valid-value procedure, so coverage of accepted inputs is by construction; rejected inputs are counted, not judged here (C02/C03 judge acceptance)"})
 	c.Floor("chains_completed", 2000)
 	c.Floor("typed_entry_point_checks", 500)
